@@ -1,6 +1,7 @@
 import XsgModel.Proofs.DeserQuick
 import XsgModel.Proofs.DeserSxr
 import XsgModel.Proofs.SpecOf
+import XsgModel.Proofs.StructCount
 /-!
 # The side condition of C02 stated on the documents
 
@@ -34,19 +35,6 @@ theorem Elem.keysKids_eq (cs : List (Nec × Elem)) : Elem.keysOK.keysKids cs = c
   | cons c cs ih =>
     obtain ⟨a, e⟩ := c
     simp [Elem.keysOK.keysKids, ih]
-
-theorem absKids_map (cs : List (Nec × Elem)) :
-    (Elem.abs.absKids cs).map (·.2) = cs.map fun c => (c.2.name, c.1, !c.2.standalone, c.2.abs) := by
-  induction cs with
-  | nil => rfl
-  | cons c cs ih =>
-    obtain ⟨a, e⟩ := c
-    simp [Elem.abs.absKids, ih]
-
-theorem abs_kids_perm (cs : List (Nec × Elem)) :
-    ((sortKeyed (Elem.abs.absKids cs)).map (·.2)).Perm (cs.map fun c => (c.2.name, c.1, !c.2.standalone, c.2.abs)) := by
-  rw [← absKids_map]
-  exact (perm_insertionSort _ _).map _
 
 theorem abs_keysOK (e : Elem) : e.abs.keysOK = e.keysOK := by
   cases e with
